@@ -1,7 +1,7 @@
 (* C01 layer 7 -- rrule_iter_correct for WEEKLY rules WITH BYSETPOS (fix 12b1f51: the first period is
-   expanded from the start of the start's WKST-week, so that positions count the whole week): every
-   number of passes whose weeks end within 9999-12-31, for starts whose first week begins on or after
-   0001-01-01 (earlier days cannot be represented, the positions of that week are not meaningful). *)
+   expanded from the start of the start's WKST-week, so that positions count the whole week): every rule, every
+   number of passes.  The week that contains 0001-01-01 begins there (fix 3426f68: positions count its existing
+   days), the week that contains 9999-12-31 ends there (fix 8ced7a9). *)
 From Coq Require Import ZArith List Bool Lia ZifyBool.
 From V Require Import base.Cal gen.RrTables rr.RRBase rr.RRNorm rr.RRMasks rr.RRIter rr.RRSpec
   rr.RROverlay rr.RRTablesThm rr.RRWeekDefs rr.RRWeekThm rr.RRWeekCal rr.RRWeekFinal rr.RRWeekTop rr.RRNwdThm
@@ -22,8 +22,8 @@ Record wfam_s (r : raw) : Prop := mk_wfam_s {
 
 Definition at_pass_ws (r : raw) (rl : rule) (k : Z) (cnt : option Z) (s : state) : Prop :=
   valid_ymd (c_year s) (c_month s) (c_day s) = true /\
-  ord_of_ymd (c_year s) (c_month s) (c_day s) = wlo r k /\
-  c_weekday s = r_wkst r /\
+  ord_of_ymd (c_year s) (c_month s) (c_day s) = wbeg r k /\
+  c_weekday s = weekday_of_ord (wbeg r k) /\
   rebuild rl ii_init (c_year s) (c_month s) = Ok (c_ii s) /\
   c_timeset s = period_times r 0 /\ c_count s = cnt.
 
@@ -49,7 +49,6 @@ Section WeeklySetpos.
 Variables (r : raw) (rl : rule).
 Hypothesis HN : normalize r = Ok rl.
 Hypothesis Y : wfam_s r.
-Hypothesis Hws : 1 <= ws0 r.
 
 Let HW : spec_wf r = true. Proof. destruct Y; assumption. Qed.
 Let Hfr : r_freq r = WEEKLY. Proof. destruct Y; assumption. Qed.
@@ -63,16 +62,35 @@ Proof.
   unfold between in *. split; [lia|]. split; [lia|assumption].
 Qed.
 
-Lemma weekly_days_s : forall k cnt s, at_pass_ws r rl k cnt s -> 0 <= k -> wlo r k + 6 <= max_ord ->
+(* the cursor lies in period k, and the rest of its week ends with the period *)
+Lemma wbeg_week k : 0 <= k ->
+  (weekday_of_ord (wbeg r k) - r_wkst r) mod 7 = wbeg r k - wlo r k /\ wlo r k <= wbeg r k <= wlo r k + 6 /\
+  (1 <= k -> wbeg r k = wlo r k).
+Proof.
+  intros Hk. destruct wfacts as (Hitv & Hwk & V).
+  pose proof (ord_of_ymd_range _ _ _ V) as R0. fold (sp_ord0 r) in R0.
+  assert (B : 0 <= sp_ord0 r - ws0 r <= 6) by (unfold ws0; lia).
+  assert (M : 0 <= k * r_interval r) by nia.
+  assert (M1 : 1 <= k -> 1 <= k * r_interval r) by nia.
+  pose proof (wlo_weekday r k Hwk) as WL.
+  assert (R : wlo r k <= wbeg r k <= wlo r k + 6 /\ (1 <= k -> wbeg r k = wlo r k)) by (unfold wbeg, wlo in *; lia).
+  split; [|exact R].
+  replace (wbeg r k) with (wlo r k + (wbeg r k - wlo r k)) at 1 by lia.
+  rewrite wd_shift, WL. apply week_off; [exact Hwk|lia].
+Qed.
+
+Lemma weekly_days_s : forall k cnt s, at_pass_ws r rl k cnt s -> 0 <= k ->
   let y := c_year s in
-  let st := wlo r k - jan1 y in let en := st + 7 in
+  let st := wbeg r k - jan1 y in let en := wend r k - jan1 y in
   exists ds ds' f,
     getdayset rl (c_ii s) y (c_month s) (c_day s) = Ok (ds, st, en) /\
     filter_loop rl (c_ii s) (py_slice ds st en) ds false = Ok (ds', f) /\
     somes (py_slice ds' st en) = filter (fun i => day_ok r (jan1 y + i)) (zrange st en).
 Proof.
-  intros k cnt s (Av & Ao & Aw & Ar & At & Ac) Hk Hmax y st en.
+  intros k cnt s (Av & Ao & Aw & Ar & At & Ac) Hk y st en.
   fold y in Av, Ao, Ar.
+  assert (Hmax : 1 <= wbeg r k <= max_ord) by (pose proof (ord_of_ymd_range _ _ _ Av) as RR; rewrite Ao in RR; lia).
+  destruct (wbeg_week k Hk) as (Ew & Bc & _).
   destruct Y as [_ _ Hp Hs He].
   pose proof (normalize_wkst r rl HN) as Nwk.
   destruct wfacts as (Hitv & Hwk & V).
@@ -82,9 +100,9 @@ Proof.
   destruct (wdayset_correct rl (c_ii s) y y (c_month s) (c_day s) F ltac:(rewrite Nwk; exact Hwk) Av
               ltac:(rewrite Ao; exact Hi)) as (ds & suf & E1 & Eds & _).
   rewrite Ao in E1, Eds. fold st in E1, Eds.
-  assert (EL : st + week_rest (weekday_of_ord (jan1 y)) (wkst rl) st = en).
-  { unfold week_rest. rewrite <- wd_shift. replace (jan1 y + st) with (wlo r k) by (unfold st; lia).
-    rewrite Nwk, (wlo_weekday r k Hwk). rewrite Z.sub_diag. change (0 mod 7) with 0. unfold en. lia. }
+  assert (EL : st + Z.min (week_rest (weekday_of_ord (jan1 y)) (wkst rl) st) (max_ord + 1 - (jan1 y + st)) = en).
+  { unfold week_rest. rewrite <- wd_shift. replace (jan1 y + st) with (wbeg r k) by (unfold st; lia).
+    rewrite Nwk, Ew. unfold st, en, wend. lia. }
   rewrite EL in E1, Eds.
   assert (G : getdayset rl (c_ii s) y (c_month s) (c_day s) = Ok (ds, st, en)).
   { unfold getdayset. rewrite Nfr. change (WEEKLY =? YEARLY) with false. change (WEEKLY =? MONTHLY) with false.
@@ -93,16 +111,16 @@ Proof.
   assert (HRj : forall i, st <= i < en -> day_rejected rl (c_ii s) i = Ok (rej i)).
   { intros i Hi'. destruct (Z_lt_ge_dec i (year_len y)) as [Hlt|Hge].
     - apply (day_filter_correct_guarded r rl y (c_month s) (c_ii s) i HN HW Hp Hs (or_introl He) Hy Ar). lia.
-    - apply (day_filter_ext r rl y (c_month s) (c_ii s) i HN HW Hp Hs He Hy Ar); [unfold st, en in *; lia|].
+    - apply (day_filter_ext r rl y (c_month s) (c_ii s) i HN HW Hp Hs He Hy Ar); [unfold st, en, wend in *; lia|].
       unfold used_index, shape_of. cbn [sh_ylen sh_ywd].
       rewrite <- wd_shift.
       replace (jan1 y + i) with (wlo r k + (jan1 y + i - wlo r k)) by lia.
       rewrite wd_shift, (wlo_weekday r k Hwk).
-      rewrite (week_off (r_wkst r) (jan1 y + i - wlo r k) Hwk) by (unfold st, en in *; lia).
-      unfold st, en in *. lia. }
+      rewrite (week_off (r_wkst r) (jan1 y + i - wlo r k) Hwk) by (unfold st, en, wend in *; lia).
+      unfold st, en, wend in *. lia. }
   set (pre := repeat (@None Z) (Z.to_nat st)).
   assert (Lp : Z.of_nat (length pre) = st) by (unfold pre; rewrite repeat_length; lia).
-  assert (Hse : st <= en) by (unfold en; lia).
+  assert (Hse : st <= en) by (unfold st, en, wend; lia).
   assert (SL : py_slice ds st en = map Some (zrange st en)).
   { rewrite Eds. fold pre. pose proof (py_slice_mid pre (map Some (zrange st en)) suf) as P.
     rewrite Lp in P. rewrite map_length in P. unfold zrange in P at 2. rewrite zrange_nat_length in P.
@@ -122,23 +140,24 @@ Proof.
   rewrite SL', somes_map_mark. apply filter_ext'. intros x. unfold rej. apply negb_involutive.
 Qed.
 
-Lemma weekly_step_items_sel k y : 0 <= k -> wlo r k + 6 <= max_ord ->
-  let st := wlo r k - jan1 y in
+Lemma weekly_step_items_sel k y : 0 <= k -> wbeg r k <= max_ord ->
+  let st := wbeg r k - jan1 y in let en := wend r k - jan1 y in
   step_items r k = filter (inst_le (sp_start r))
     (select_pos r (cand_list (jan1 y) (period_times r 0)
-                     (filter (fun i => day_ok r (jan1 y + i)) (zrange st (st + 7))))).
+                     (filter (fun i => day_ok r (jan1 y + i)) (zrange st en)))).
 Proof.
-  intros Hk Hmax st.
+  intros Hk Hmax st en.
+  destruct (wbeg_week k Hk) as (_ & Bc & _).
   destruct wfacts as (Hitv & Hwk & V).
   pose proof (wlo_mono r 0 k Hitv Hk) as M0.
   assert (E0 : wlo r 0 = ws0 r) by (unfold wlo; lia).
-  rewrite <- (cands_by_index r y st (st + 7)) by lia.
+  rewrite <- (cands_by_index r y st en) by (unfold st, en, wend; lia).
   unfold step_items, is_coarse. rewrite Hfr. change (WEEKLY <=? DAILY) with true. cbv iota.
   f_equal. f_equal. unfold cands_coarse, period_days. rewrite Hfr.
   change (WEEKLY =? YEARLY) with false. change (WEEKLY =? MONTHLY) with false. change (WEEKLY =? WEEKLY) with true.
   cbv iota zeta. fold (ws0 r). fold (wlo r k).
-  replace (Z.max (wlo r k) 1) with (jan1 y + st) by (unfold st; lia).
-  replace (Z.min (wlo r k + 6) max_ord + 1) with (jan1 y + (st + 7)) by (unfold st; lia).
+  replace (Z.max (wlo r k) 1) with (jan1 y + st) by (unfold st, wbeg; lia).
+  replace (Z.min (wlo r k + 6) max_ord + 1) with (jan1 y + en) by (unfold en, wend; lia).
   apply flat_map_filter.
 Qed.
 
@@ -154,44 +173,52 @@ Proof.
   destruct (normalize_fields r rl HN) as (_ & _ & _ & _ & _ & Nea & _).
   assert (TE : truthy (byeaster rl) = false) by (rewrite Nea, He; reflexivity).
   destruct wfacts as (Hitv & Hwk & V).
+  destruct (wbeg_week k Hk) as (Ew & Bc & _).
+  destruct (wbeg_week (k + 1) ltac:(lia)) as (_ & _ & EC). specialize (EC ltac:(lia)).
+  pose proof (weekday_of_ord_range (wbeg r k)) as Rw.
   unfold advance. rewrite Nfr.
   change (WEEKLY =? YEARLY) with false. change (WEEKLY =? MONTHLY) with false. change (WEEKLY =? WEEKLY) with true.
   cbv iota zeta.
   rewrite (weekly_advance_correct (c_day s) (c_weekday s) (wkst rl) (interval rl)
-             ltac:(rewrite Aw; exact Hwk) ltac:(rewrite Nwk; exact Hwk)).
-  rewrite Aw, Nwk, Ni. rewrite Z.sub_diag. change (0 mod 7) with 0.
-  replace (c_day s - 0 + 7 * r_interval r) with (c_day s + 7 * r_interval r) by lia.
-  destruct (fixday_advance rl s (c_year s) (c_month s) (c_day s) (7 * r_interval r) (c_hour s) (c_minute s) (c_second s)
-              (r_wkst r) (c_ii s) (c_timeset s) c1 out1 Av ltac:(lia) Ar TN TE
+             ltac:(rewrite Aw; exact Rw) ltac:(rewrite Nwk; exact Hwk)).
+  rewrite Aw, Nwk, Ew, Ni.
+  set (delta := 7 * r_interval r - (wbeg r k - wlo r k)).
+  replace (c_day s - (wbeg r k - wlo r k) + 7 * r_interval r) with (c_day s + delta) by (unfold delta; lia).
+  assert (EN : wbeg r k + delta = wlo r (k + 1)) by (rewrite wlo_succ; unfold delta; lia).
+  destruct (fixday_advance rl s (c_year s) (c_month s) (c_day s) delta (c_hour s) (c_minute s) (c_second s)
+              (r_wkst r) (c_ii s) (c_timeset s) c1 out1 Av ltac:(unfold delta; lia) Ar TN TE
               ltac:(rewrite Nwk; exact Hwk))
     as [(y' & m' & d' & ii' & EA & V' & O' & R')|(EA & Hmx)].
   - left. eexists. split; [exact EA|]. split; [|reflexivity].
     unfold at_pass_ws. cbn [c_year c_month c_day c_weekday c_ii c_timeset c_count].
-    split; [exact V'|]. split; [rewrite O', Ao, wlo_succ; reflexivity|].
-    split; [reflexivity|]. split; [exact R'|]. split; [exact At|reflexivity].
-  - right. split; [exact EA|]. rewrite (step_lo_weekly r (k + 1) Hfr), wlo_succ, <- Ao. exact Hmx.
+    split; [exact V'|]. split; [rewrite O', Ao, EN, EC; reflexivity|].
+    split; [rewrite EC, (wlo_weekday r (k + 1) Hwk); reflexivity|]. split; [exact R'|]. split; [exact At|reflexivity].
+  - right. split; [exact EA|]. rewrite (step_lo_weekly r (k + 1) Hfr), <- EN, <- Ao. exact Hmx.
 Qed.
 
-Lemma weekly_step_s : forall k cnt s, at_pass_ws r rl k cnt s -> 0 <= k -> wlo r k + 6 <= max_ord ->
+Lemma weekly_step_s : forall k cnt s, at_pass_ws r rl k cnt s -> 0 <= k -> True ->
   exists acc' cnt' b, sp_take r (step_items r k) cnt (c_out s) = (acc', cnt', b) /\
     ((exists s', step rl s = inl s' /\ at_pass_ws r rl (k + 1) cnt' s' /\ c_out s' = acc' /\ b = false) \/
      (exists t, step rl s = inr (acc', t) /\
                 (b = true \/ until_lt_start r \/ max_ord < step_lo r (k + 1)))) /\
     (sp_after_until r (step_lo r k, 0) = true -> acc' = c_out s).
 Proof.
-  intros k cnt s A Hk Hmax.
+  intros k cnt s A Hk _.
   pose proof A as (Av & Ao & Aw & Ar & At & Ac).
-  destruct (weekly_days_s k cnt s A Hk Hmax) as (ds & ds' & f & E1 & E2 & E3).
+  assert (Hmax : 1 <= wbeg r k <= max_ord) by (pose proof (ord_of_ymd_range _ _ _ Av) as RR; rewrite Ao in RR; lia).
+  destruct (wbeg_week k Hk) as (_ & Bc & _).
+  destruct (weekly_days_s k cnt s A Hk) as (ds & ds' & f & E1 & E2 & E3).
   destruct (index_in_year _ _ _ Av) as (Hi & Ho & Hy). rewrite Ao in Hi, Ho.
   pose proof (rebuild_ii_for rl _ _ (c_ii s) Hy Ar) as F.
   destruct (step_from_days r rl HN HW ltac:(rewrite Hfr; reflexivity) s k cnt ds _ _ ds' f _ E1 E2 E3
               (ssorted_filter_zrange _ _ _)) as (out' & c1 & s1 & c1' & b1 & PRE & ET & G2 & G3 & G4).
   { intros i Hi'. apply filter_In in Hi'. destruct Hi' as [Hi' _]. unfold zrange in Hi'.
     pose proof (In_zrange_nat_bounds _ _ _ Hi') as Bi. rewrite (f_yo _ _ F). unfold from_ordinal.
-    replace ((1 <=? jan1 (c_year s) + i) && (jan1 (c_year s) + i <=? max_ord)) with true by lia. reflexivity. }
+    replace ((1 <=? jan1 (c_year s) + i) && (jan1 (c_year s) + i <=? max_ord)) with true by (unfold wend in *; lia).
+    reflexivity. }
   { exact At. }
   { exact Ac. }
-  { rewrite (f_yo _ _ F). apply (weekly_step_items_sel k (c_year s) Hk Hmax). }
+  { rewrite (f_yo _ _ F). apply (weekly_step_items_sel k (c_year s) Hk ltac:(lia)). }
   exists out', c1', b1. split; [exact ET|]. split.
   - destruct s1 as [t|].
     + right. exists t. split; [exact PRE|]. destruct (G3 ltac:(discriminate)) as [H|H]; auto.
@@ -206,10 +233,9 @@ Proof.
 Qed.
 
 Theorem weekly_setpos_iter_correct2 : forall limit n, r_bysetpos r <> None ->
-  (n <> 0%nat -> wlo r (Z.of_nat n - 1) + 6 <= max_ord) ->
   fst (iterate rl limit n) = fst (spec_iter r limit n).
 Proof.
-  intros limit n Hsp Hn.
+  intros limit n Hsp.
   destruct Y as [_ _ Hp Hs He].
   destruct (normalize_misc r rl HN) as (Ni & Nsp & Ny & Nm & Nd & Nc & Nu).
   pose proof (normalize_wkst r rl HN) as Nwk.
@@ -231,18 +257,20 @@ Proof.
   assert (EB : sp_ord0 r - back = ws0 r) by reflexivity.
   assert (EW0 : wlo r 0 = ws0 r) by (unfold wlo; lia).
   assert (PRO : exists y0 m0 d0,
-     (if negb (back =? 0) && (1 <=? sp_ord0 r - back)
-      then let '(y', m', d') := ymd_of_ord (sp_ord0 r - back) in (y', m', d', r_wkst r)
-      else (r_y r, r_m r, r_d r, weekday (r_y r) (r_m r) (r_d r))) = (y0, m0, d0, r_wkst r) /\
-     valid_ymd y0 m0 d0 = true /\ ord_of_ymd y0 m0 d0 = ws0 r).
-  { destruct (back =? 0) eqn:E0; cbn [negb andb].
-    - exists (r_y r), (r_m r), (r_d r). split; [|split; [exact V|]].
-      + f_equal. unfold back, weekday in *. fold (sp_ord0 r) in *.
-        pose proof (weekday_of_ord_range (sp_ord0 r)). lia.
+     (if negb (back =? 0)
+      then let '(y', m', d') := ymd_of_ord (Z.max (sp_ord0 r - back) 1) in
+           (y', m', d', weekday_of_ord (Z.max (sp_ord0 r - back) 1))
+      else (r_y r, r_m r, r_d r, weekday (r_y r) (r_m r) (r_d r))) = (y0, m0, d0, weekday_of_ord (wbeg r 0)) /\
+     valid_ymd y0 m0 d0 = true /\ ord_of_ymd y0 m0 d0 = wbeg r 0).
+  { assert (EB0 : Z.max (sp_ord0 r - back) 1 = wbeg r 0) by (unfold wbeg; lia).
+    destruct (back =? 0) eqn:E0; cbn [negb andb].
+    - assert (EQ : wbeg r 0 = sp_ord0 r) by lia.
+      exists (r_y r), (r_m r), (r_d r). split; [|split; [exact V|]].
+      + rewrite EQ. reflexivity.
       + fold (sp_ord0 r). lia.
-    - replace (1 <=? sp_ord0 r - back) with true by lia. rewrite EB.
-      pose proof (ymd_of_ord_valid (ws0 r) ltac:(unfold back in *; lia)) as VV.
-      destruct (ymd_of_ord (ws0 r)) as [[y0 m0] d0]. destruct VV as [V1 V2].
+    - rewrite EB0.
+      pose proof (ymd_of_ord_valid (wbeg r 0) ltac:(unfold back in *; lia)) as VV.
+      destruct (ymd_of_ord (wbeg r 0)) as [[y0 m0] d0]. destruct VV as [V1 V2].
       exists y0, m0, d0. split; [reflexivity|]. split; assumption. }
   destruct PRO as (y0 & m0 & d0 & EP & V0 & O0).
   destruct (index_in_year _ _ _ V0) as (_ & _ & Hy0).
@@ -254,20 +282,20 @@ Proof.
   set (s0 := mkSt _ _ _ _ _ _ _ _ _ _ _).
   assert (A0 : at_pass_ws r rl 0 (r_count r) s0).
   { unfold at_pass_ws, s0. cbn [c_year c_month c_day c_weekday c_ii c_timeset c_count].
-    split; [exact V0|]. split; [rewrite O0, EW0; reflexivity|]. split; [reflexivity|].
+    split; [exact V0|]. split; [exact O0|]. split; [reflexivity|].
     split; [exact R0'|]. split; reflexivity. }
   assert (H1 : forall k0 cnt0 s1, at_pass_ws r rl k0 cnt0 s1 -> c_count s1 = cnt0).
   { intros k0 cnt0 s1 (_ & _ & _ & _ & _ & Ac). exact Ac. }
   assert (H2 : forall k0, 0 <= k0 -> step_lo r k0 <= step_lo r (k0 + 1)).
   { intros k0 Hk0. rewrite !(step_lo_weekly r _ Hfr). apply wlo_mono; lia. }
-  assert (H3 : forall k0 cnt0 s1, at_pass_ws r rl k0 cnt0 s1 -> 0 <= k0 -> wlo r k0 + 6 <= max_ord ->
+  assert (H3 : forall k0 cnt0 s1, at_pass_ws r rl k0 cnt0 s1 -> 0 <= k0 -> True ->
                step_lo r k0 <= max_ord).
-  { intros k0 cnt0 s1 _ _ Hm. rewrite (step_lo_weekly r k0 Hfr). lia. }
+  { intros k0 cnt0 s1 (Av1 & Ao1 & _) Hk0 _. rewrite (step_lo_weekly r k0 Hfr).
+    pose proof (ord_of_ymd_range _ _ _ Av1) as RR. rewrite Ao1 in RR. unfold wbeg in RR. lia. }
   assert (Q : fst (run rl limit n s0) = fst (spec_loop r limit n 0 (r_count r) (c_out s0))).
-  { apply (coarse_run_is_spec r rl (at_pass_ws r rl) (fun k0 => wlo r k0 + 6 <= max_ord) H1 H2 H3 weekly_step_s
+  { apply (coarse_run_is_spec r rl (at_pass_ws r rl) (fun _ => True) H1 H2 H3 weekly_step_s
              limit n 0 (r_count r) s0 A0 ltac:(lia)).
-    intros j Hj. pose proof (Hn ltac:(lia)) as B.
-    pose proof (wlo_mono r j (Z.of_nat n - 1) Hitv ltac:(lia)). lia. }
+    intros j Hj. exact I. }
   change (c_out s0) with (@nil instant) in Q.
   destruct (run rl limit n s0) as [out t]. destruct (spec_loop r limit n 0 (r_count r) []) as [acc t'].
   cbn [fst] in *. rewrite Q. reflexivity.
@@ -276,15 +304,14 @@ End WeeklySetpos.
 
 (* WEEKLY with or without BYSETPOS *)
 Theorem weekly_iter_correct_full : forall r rl limit n,
-  normalize r = Ok rl -> wfam_s r -> (r_bysetpos r <> None -> 1 <= ws0 r) ->
-  (n <> 0%nat -> wlo r (Z.of_nat n - 1) + 6 <= max_ord) ->
+  normalize r = Ok rl -> wfam_s r ->
   fst (iterate rl limit n) = fst (spec_iter r limit n).
 Proof.
-  intros r rl limit n HN Y Hws Hn.
+  intros r rl limit n HN Y.
   destruct (r_bysetpos r) as [poss|] eqn:EB.
-  - apply (weekly_setpos_iter_correct2 r rl HN Y (Hws ltac:(discriminate)) limit n); [rewrite EB; discriminate|exact Hn].
+  - apply (weekly_setpos_iter_correct2 r rl HN Y limit n). rewrite EB. discriminate.
   - destruct Y as [HW Hfr Hp Hs He].
-    apply (weekly_iter_correct r rl limit n HN); [constructor; assumption|exact Hn].
+    apply (weekly_iter_correct r rl limit n HN). constructor; assumption.
 Qed.
 
 (* non-vacuity: the regression case of fix 12b1f51 -- rrule(WEEKLY, dtstart=datetime(2024,12,26,9,0) (Thursday),
